@@ -13,11 +13,11 @@ from .c14 import _locate
 ID = 'C20'
 LEVEL = 'fault_enumeration'
 LEVEL_TEXT = ('fault enumeration for the write part: a fault-free run yields the I/O event list and line count of the write, then '
-              'F1/F2/F3 are injected at every I/O event (thorough; a seeded sample in quick) and interrupts at seeded line events, '
+              'F1/F2/F3 are injected at every I/O event (thorough, stratified to 400 plans per case when a run has more; a seeded sample in quick) and interrupts at seeded line events (thorough: stratified sweeps over all line events of the write in some cases), '
               'each followed by a fault-free retry; exploration for the rejected-call part (12 rejection classes x positions)')
 LEVEL_NOTE = ('trusted: projection builder, SimFile fault model (errors raised before effect or after a real partial write), '
               'sys.settrace line events as interrupt points; bounded liveness = the retry completes within its own call')
-TIERS = {'quick': {'cases': 800, 'wall': 45, 'faults_per_case': 5}, 'thorough': {'cases': 60000, 'wall': 840, 'faults_per_case': 10 ** 6}}
+TIERS = {'quick': {'cases': 800, 'wall': 45, 'faults_per_case': 5}, 'thorough': {'cases': 60000, 'wall': 840, 'faults_per_case': 400}}
 RULE = ('case = seeded specification with 0-3 rejected calls inserted, written, then (fault part) re-executed once per enumerated '
         'fault point with a retry; non-trivial = at least one call was actually rejected or one fault actually fired before the '
         'compared write; distinct = case digest')
@@ -245,15 +245,19 @@ def check_case(case, ex):
                 plans.append([{'kind': 'close_fail', 'at_event': ev['i'], 'lose': 0}])
                 plans.append([{'kind': 'close_fail', 'at_event': ev['i'], 'lose': 3}])
     elif mode == 'interrupt' and lines:
-        for p in Pm['pick']:
-            plans.append([{'kind': 'interrupt', 'at_line': 1 + int(p * (lines - 1))}])
+        if Pm.get('n_faults', 0) >= 100 and len(Pm['pick']) > 1 and Pm['pick'][1] < 0.15:
+            # thorough, some cases: a stratified sweep over the line events of the write (every k-th line, random phase), <= 100 points
+            k = max(lines // 100, 1)
+            ph = int(Pm['pick'][0] * k)
+            for ln in range(1 + ph, lines + 1, k):
+                plans.append([{'kind': 'interrupt', 'at_line': ln}])
+        else:
+            for p in Pm['pick']:
+                plans.append([{'kind': 'interrupt', 'at_line': 1 + int(p * (lines - 1))}])
     elif mode == 'data_error':
         plans.append('data_error')
     nmax = Pm.get('n_faults', 5)
-    if len(plans) > nmax:
-        pk = Pm['pick']
-        idxs = sorted(set(int(pk[i % len(pk)] * len(plans)) % len(plans) for i in range(nmax)))
-        plans = [plans[i] for i in idxs]
+    plans = C.pick_plans(plans, nmax, Pm['pick'])
     for plan in plans:
         if plan == 'data_error':
             # strip the inline data of one channel: the write fails for lack of a dataset; the retry supplies it
